@@ -208,6 +208,9 @@ def run_check(pm, prop, tier, verbose):
 
     seen_native = set()
     for f in native_fail:
+        if str(f.label).startswith("encoding-"):
+            checker_errors.append(f"{f.func}: {f.detail} (a builtin model of the VC generator disagrees with CPython)")
+            continue
         key = (f.func, f.kind, f.label)
         if id(f) in attached:
             continue
